@@ -353,6 +353,9 @@ def _minmax(is_min):
                 best = x if it.truth(c) else best
         return best
     return f
+def _b_divmod(it, a, b):
+    import ast
+    return (it.binop(ast.FloorDiv, a, b), it.binop(ast.Mod, a, b))
 def _b_sum(it, xs, start=0):
     acc = start
     import ast
@@ -363,6 +366,7 @@ def _b_int(it, x=0):
     if isinstance(x, z3.ExprRef):
         if x.sort() == z3.IntSort(): return x
         if x.sort() == z3.BoolSort(): return z3.If(x, 1, 0)
+        if x.sort() == z3.RealSort(): return z3.If(x >= 0, z3.ToInt(x), -z3.ToInt(-x))      # int() truncates toward zero
         raise Outside('int() of non-int term')
     if isinstance(x, SymVal) and hasattr(x, 'sym_int'): return x.sym_int(it)
     if is_plain(x):
@@ -466,7 +470,7 @@ DEFAULT_BUILTINS = {
     any: _b_any, all: _b_all, min: _minmax(True), max: _minmax(False), sum: _b_sum, bool: _b_bool, int: _b_int,
     str: _b_str, float: _b_float, repr: _b_repr, id: _b_id, hash: _b_hash, getattr: _b_getattr, hasattr: _b_hasattr, setattr: _b_setattr,
     callable: _b_callable, sorted: _b_sorted, set: _b_set, frozenset: _b_frozenset, dict: _b_dict, range: _b_range,
-    abs: _b_abs, next: _b_next, functools.reduce: _b_reduce, itertools.starmap: _b_starmap,
+    divmod: _b_divmod, abs: _b_abs, next: _b_next, functools.reduce: _b_reduce, itertools.starmap: _b_starmap,
     itertools.chain: _b_chain, itertools.chain.from_iterable: _b_chain_from, itertools.product: _b_product,
     itertools.repeat: _b_repeat,
 }
